@@ -62,7 +62,7 @@ def is_instagram_url(url):
     if isinstance(url, SplitResult):
         return bool(re.search(INSTAGRAM_DOMAIN_RE, url.hostname))
 
-    return bool(re.match(INSTAGRAM_URL_RE, url))
+    return bool(re.match(INSTAGRAM_URL_RE, url.lower()))
 
 
 def parse_instagram_url(url):
